@@ -529,6 +529,11 @@ def file_replacement(rp, binp, sc, tier):
                 if len(cases) < 60 or thorough:
                     cases.append((old, r["steps"], r["cur"]))
     for (w, inj), (old, new, r) in sorted(witnesses.items()):
+        k = known_match(writer=w)
+        if k:
+            rp.known(k["key"], k["what"])
+            del witnesses[(w, inj)]
+            continue
         crash_violation(rp, w, WRITERS[w]["args"], old, new, r, shapes[w])
     n_runs = len(results) + len(kresults)
     rp.obligation("crash sweep: the file is the complete old or the complete new content after a write failure at every byte offset "
@@ -1064,8 +1069,29 @@ def verdict_matrix(rp, binp, scr, tier, rng):
     return scenarios, results, failures, mism, okc
 
 
+def known_match(sc=None, writer=None):
+    """a 'known' (unrepaired) finding whose narrow signature matches this failure, or None.
+    verdict failures: signature {kind: input_shape, command, flag (a flag that must be on the command line, '' = any),
+    input_kind (optional)}; crash failures: signature {kind: call_site, writer}"""
+    for k in common.known_findings("C19"):
+        if k.get("status") != "known":
+            continue
+        sg = k.get("signature", {})
+        if sc is not None and sg.get("kind") == "input_shape" and sg.get("command") == sc["cmd"]:
+            argv = scenario_argv(sc)
+            if (not sg.get("flag") or any(f in argv for f in sg["flag"].split())) and sg.get("input_kind", sc["kind"]) == sc["kind"]:
+                return k
+        if writer is not None and sg.get("kind") == "call_site" and sg.get("writer") == writer:
+            return k
+    return None
+
+
 def report_matrix(rp, scenarios, results, failures, mism, okc):
     failing_idx = {id(sc) for sc, _, _ in failures}
+    known = [(sc, r, bad, known_match(sc=sc)) for sc, r, bad in failures]
+    for key in sorted({k["key"] for _, _, _, k in known if k}):
+        rp.known(key, [k["what"] for _, _, _, k in known if k and k["key"] == key][0])
+    failures = [(sc, r, bad) for sc, r, bad, k in known if not k]
     rp.obligation("oracle: exit status / writes / reports of the real binary agree with the library verdicts on %d runs" % len(scenarios), not failures)
     rp.obligation("correspondence: Coq verdict model = real binary (status, files written, stdout, report) on %d runs" % len(scenarios), okc and not mism)
     seen = set()
@@ -1105,6 +1131,7 @@ def run(tier):
         except common.StageError as e:
             return common.stage_fail(rp, e)
     report_matrix(rp, scenarios, results, failures, mism, okc)
+    replay_known(rp, binp)
     ev, nt, samples = r1
     kinds = {}
     for s_ in scenarios:
@@ -1144,6 +1171,43 @@ PROP_THEOREMS = ["Props.C19.C19_replace_atomic", "Props.C19.C19_replace_success"
                  "Props.C19.C19_exit_format_zero_iff_one", "Props.C19.C19_check_never_writes", "Props.C19.C19_format_only_on_success",
                  "Props.C19.C19_format_triangle", "Props.C19.C19_format_triangle_one", "Props.C19.C19_exit_lint_zero_iff",
                  "Props.C19.C19_lint_no_fix_never_writes", "Props.C19.C19_lint_only_on_success", "Props.C19.C19_exit_parse_zero_iff"]
+
+
+def replay_witness(binp, w):
+    """-> list of failure strings (empty: the witness passes on the current tree)"""
+    if w.get("kind") == "crash":
+        with Scratch() as sc:
+            old, new = w["old"].encode("latin1"), w["new"].encode("latin1")
+            r = kill_run(binp, sc, w["args"], old, tuple(w["kill"]), w.get("k")) if w.get("inj") == "kill" else crash_run(binp, sc, w["args"], old, w["k"])
+        return [] if r["cur"] in (old, new) else ["file on disk is neither old nor new: %r" % r["cur"]]
+    sc = w["scenario"]
+    lib = Lib()
+    o = fmt_opts(sc["flags"]) if sc["cmd"] == "format" else dict(max_length=sc["flags"].get("max_length", 100)) if sc["cmd"] == "lint" else None
+    for t in sc["texts"]:
+        lib.need(t, o)
+        lib.need(t, None)
+    lib.fetch()
+    with Scratch() as scr:
+        r = run_scenario(binp, scr, sc)
+    return judge(sc, r, lib)[1]
+
+
+def replay_known(rp, binp):
+    """witnesses of the recorded findings: a fixed one must pass (else the defect is back), a known one should still fail"""
+    for k in common.known_findings("C19"):
+        ws = k["witness"] if isinstance(k.get("witness"), list) else [k["witness"]]
+        fails = [(w, f) for w in ws for f in [replay_witness(binp, w)] if f]
+        if k["status"] == "fixed":
+            rp.obligation("fixed finding stays fixed: %s (%s)" % (k["key"], k.get("commit")), not fails)
+            for w, f in fails[:1]:
+                rp.violation(dict(w, property="C19", regression_of=k["key"], commit=k.get("commit"), failed=f,
+                                  explanation="the witness of a repaired defect fails again: " + k["what"]),
+                             "regression_%s" % k["key"])
+        else:
+            if fails:
+                rp.known(k["key"], k["what"])
+            else:
+                rp.cov["notes"].append("stale known finding (witness passes now): %s" % k["key"])
 
 
 def replay(path):
